@@ -56,8 +56,18 @@ type FS struct {
 	tornAll  *Term // ... everything but the newline
 	nEff     int
 	proc     int
+	effT     []effRec
+	reads    []effRec
 	effects  []map[string]interface{}
 	parseErrs []parseErrRec
+}
+
+type effRec struct {
+	g      *Term
+	inLock *Term
+	idx    int
+	f      *FileObj
+	kind   string
 }
 
 type parseErrRec struct {
@@ -93,6 +103,7 @@ func (w *World) fsInit() {
 		ergoPath + ".zzProcAlive":    w.fsProcAlive,
 		ergoPath + ".zzParseErrInfo": w.fsParseErrInfo,
 		ergoPath + ".zzLogShape":     w.fsLogShape,
+		ergoPath + ".zzLockDiscipline": w.fsLockDiscipline,
 		ergoPath + ".zzNoTornWrites": func(ex *Exec, c *callCtx) Value {
 			if w.fs.die != nil {
 				ex.assume(And(Not(w.fs.torn), Not(w.fs.tornAll)))
@@ -130,6 +141,10 @@ func (w *World) effect(c *callCtx, kind string, f *FileObj) (alive *Term, idx in
 	}
 	fs.effects = append(fs.effects, map[string]interface{}{"i": idx, "kind": kind, "file": name, "proc": fs.proc})
 	w.ex.scenarioMeta["effects"] = fs.effects
+	fs.effT = append(fs.effT, effRec{g: c.guard, inLock: w.lockHeld, idx: idx, f: f, kind: kind})
+	// which effects lie on the path the solver picks (the native replay needs to know)
+	ev := w.ex.nondet(fmt.Sprintf("world.eff!%d", idx), "bool").(BoolV).T
+	w.ex.assume(Eq(ev, c.guard))
 	if fs.die == nil {
 		return c.guard, idx
 	}
@@ -218,6 +233,7 @@ func (w *World) handleOf(v Value) *fileHandle {
 
 func (w *World) fsOpen(ex *Exec, c *callCtx) Value {
 	f := w.file(c.args[0])
+	w.fs.reads = append(w.fs.reads, effRec{g: c.guard, inLock: w.lockHeld, idx: w.fs.nEff, f: f, kind: "open"})
 	h := w.newHandle(f, &fileHandle{})
 	return TupleV{E: []Value{MergeV(f.Exists, h, NilRef()), MergeV(f.Exists, NilRef(), w.notExistErr())}}
 }
@@ -486,6 +502,8 @@ func (w *World) fsParseErrInfo(ex *Exec, c *callCtx) Value {
 func (w *World) fsProcBegin(ex *Exec, c *callCtx) Value {
 	fs := w.fs
 	fs.proc++
+	fs.reads, fs.effT = nil, nil // lock discipline is judged per process
+	w.lockEvs = nil
 	w.lockHeld = False
 	w.lockFileSeen = false
 	may := c.args[0].(BoolV).T
@@ -586,4 +604,38 @@ func (w *World) mFSInit(ex *Exec, c *callCtx) Value {
 	dir := w.file(StrV{T: ergodir})
 	dir.Exists = True
 	return StrV{T: w.dirAtom}
+}
+
+// zzLockDiscipline() (writesInLock, readsFeedingWritesInLock, nonBlocking, exclusive bool):
+// facts about the system calls the command(s) issued so far, decided from the real code's
+// constants and control flow:
+//   - every create/truncate/write/rename on the log or its temp file happens while this process
+//     holds the flock;
+//   - every open-for-read of the log that is followed (in program order) by such a write happens
+//     while holding it (reads after the last write only report);
+//   - every flock carries LOCK_NB; every flock is LOCK_EX.
+func (w *World) fsLockDiscipline(ex *Exec, c *callCtx) Value {
+	fs := w.fs
+	isStore := func(f *FileObj) bool { return f == w.logFile || f == w.tmpFile }
+	wil, ril := True, True
+	for _, e := range fs.effT {
+		if !isStore(e.f) {
+			continue
+		}
+		wil = And(wil, Implies(e.g, e.inLock))
+		for _, r := range fs.reads {
+			if isStore(r.f) && r.idx <= e.idx {
+				ril = And(ril, Implies(And(r.g, e.g), r.inLock))
+			}
+		}
+	}
+	nb, exl := True, True
+	for _, l := range w.lockEvs {
+		if l.Kind != "flock" {
+			continue
+		}
+		nb = And(nb, Implies(l.G, Eq(BVBin("bvand", l.How, BVC(4, 64)), BVC(4, 64))))
+		exl = And(exl, Implies(l.G, Eq(BVBin("bvand", l.How, BVC(2, 64)), BVC(2, 64))))
+	}
+	return TupleV{E: []Value{BoolV{wil}, BoolV{ril}, BoolV{nb}, BoolV{exl}}}
 }
